@@ -301,7 +301,7 @@ impl Prop for C14 {
     const MAX_SHRINK_ITERS: u32 = 8;
     const RULE: &'static str = "proptest-generated bound settings (boxes of 1-3 dims incl. 1e-3 and 1e4 scales, SO2 intervals, SO3 full and cones of radius [0.3, pi), compounds, SE2/SE3) x sampler seeds; N = 2e5 draws per setting (quick) / 1e6 (thorough). Per setting: Kolmogorov-Smirnov of every marginal against its exact CDF (coordinate, angle, rotation angle (theta - sin theta)/(tmax - sin tmax) relative to the cone centre, axis z-component, axis azimuth), sign symmetry of the quaternion, chi-square on an 8x8 grid for consecutive marginals (independence). Each test at alpha = 1e-9 and a failure must repeat on a second independent seed. One case = one setting; counters give the number of statistical tests and draws. Cannot see biases below about 1%. Non-trivial = setting with non-default bounds.";
     fn random_cases(tier: Tier) -> usize {
-        tier.pick(48, 360)
+        tier.pick(96, 360)
     }
     fn gen(ch: &mut Ch, tier: Tier) -> UniformCase {
         let kind = ch.pick(&ALL_KINDS);
